@@ -118,6 +118,7 @@ pub mod c12 {
         ($name:ident, $ni:expr, $nt:expr, $k:expr) => {
             #[kani::proof]
             #[kani::unwind(140)]
+            #[kani::solver(z3)]
             pub fn $name() {
                 hmat::<{ $ni * $nt }>($ni, $nt, $k);
             }
